@@ -307,7 +307,10 @@ def run(chk):
         keep = ["md5_crypt", "sha256_crypt", "sha512_crypt", "bcrypt", "bcrypt_sha256", "des_crypt", "bsdi_crypt", "phpass", "scrypt", "pbkdf2_sha256", "ldap_salted_sha1",
                 "django_pbkdf2_sha256", "hex_md5", "mssql2005", "mysql41", "fshp", "scram", "sun_md5_crypt", "cisco_type7", "ldap_bcrypt", "sha1_crypt", "grub_pbkdf2_sha512",
                 "oracle11", "lmhash", "dlitz_pbkdf2_sha1", "ldap_hex_sha1", "django_bcrypt_sha256", "cta_pbkdf2_sha1", "apr_md5_crypt", "atlassian_pbkdf2_sha1"]
-        names = [n for n in names if n in keep]
+        # every hasher is probed in the quick tier too; those outside `keep` with one valid hash and a thinner sample of positional mutants
+        light = {n for n in names if n not in keep}
+    else:
+        light = set()
     agg = {}
     events = []
     total = 0
@@ -331,7 +334,7 @@ def run(chk):
             ctxobj = CryptContext(schemes=[name])
         except Exception:
             ctxobj = None
-        vh = valid_hashes(name, h)[: (3 if quick else 5)]
+        vh = valid_hashes(name, h)[: (1 if name in light else 3 if quick else 5)]
         probed.append((name, h, vh))
         for s, ckw in vh:
             padpos = len(s) - PADREPAIR_WRAPPED.get(name, 31)
@@ -340,6 +343,8 @@ def run(chk):
             seen = set()
             for kind, m in mutants(s, name, rnd, quick):
                 if m == s or (kind, m) in seen:
+                    continue
+                if name in light and kind in ("subst", "insert", "delete", "truncate") and 0 < len(m) and m != s + "A" and m != s + "$" and rnd.random() < .7:
                     continue
                 seen.add((kind, m))
                 by_form = {}
